@@ -311,9 +311,32 @@ Section Refine.
       Lemma wgenerate_registered q ws x : In x (wreg ws) -> In x (wreg (wgenerate q ws)).
       Proof. intros H. unfold W.generate. apply (W.reg_all_spec key key_eqb key_eqb_spec kreq). left. exact H. Qed.
 
+      (* what a snapshot ToGenerate() satisfies, and keeps satisfying while its keys are generated *)
+      Definition pending (k : nat) (st : state) (ts : list T) : Prop :=
+        forall t, In t ts -> In t (classes (st k)) /\ ~ In t (gen T (st k)).
+
+      Lemma to_generate_pending st ws k :
+        R st ws -> NoDup (to_generate T T_eqb (st k)) /\ pending k st (to_generate T T_eqb (st k)).
+      Proof.
+        intros H. split.
+        - unfold Gen.to_generate. apply NoDup_filter', (R_classes_nodup st ws k H).
+        - intros t Ht. unfold Gen.to_generate in Ht. apply filter_In in Ht. destruct Ht as [Hc Hm].
+          split; [exact Hc|]. intros Hin. apply memT_In in Hin. rewrite Hin in Hm. discriminate.
+      Qed.
+
+      Lemma pending_step k t r st ws s1 :
+        R st ws -> R s1 (wgenerate (k, t) ws) -> ~ In t r -> pending k st (t :: r) -> pending k s1 r.
+      Proof.
+        intros H H1 Hnin Hts t' Ht'. destruct (Hts t' (or_intror Ht')) as [Hc' Hg']. split.
+        - apply (R_in_reg s1 _ k t' H1). apply wgenerate_registered. apply (R_in_reg st ws k t' H). exact Hc'.
+        - intros Hin. apply (R_in_gen s1 _ k t' H1) in Hin. rewrite wgenerate_generated in Hin.
+          destruct Hin as [E|Hin]; [inversion E; subst; contradiction|].
+          apply Hg'. apply (R_in_gen st ws k t' H). exact Hin.
+      Qed.
+
       (* one plugin's snapshot = gen_all *)
       Lemma R_gen_list k ts : forall st ws out st' out',
-        R st ws -> NoDup ts -> (forall t, In t ts -> In t (classes (st k)) /\ ~ In t (gen T (st k))) ->
+        R st ws -> NoDup ts -> pending k st ts ->
         gen_list k ts st out = Some (st', out') ->
         R st' (W.gen_all key key_eqb kreq (map (pair k) ts) ws) /\
         wgen (W.gen_all key key_eqb kreq (map (pair k) ts) ws) = rev (map (pair k) ts) ++ wgen ws /\
@@ -330,11 +353,7 @@ Section Refine.
             exfalso. apply Hg. apply memT_In. exact M. }
           rewrite M. inversion ND as [|? ? Hnin ND']; subst.
           destruct (IH s1 (wgenerate (k, t) ws) (out ++ [e]) st' out' H1 ND') as (H2 & G2 & O2); [|exact G|].
-          + intros t' Ht'. destruct (Hts t' (or_intror Ht')) as [Hc' Hg']. split.
-            * apply (R_in_reg s1 _ k t' H1). apply wgenerate_registered. apply (R_in_reg st ws k t' H). exact Hc'.
-            * intros Hin. apply (R_in_gen s1 _ k t' H1) in Hin. rewrite wgenerate_generated in Hin.
-              destruct Hin as [E|Hin]; [inversion E; subst; contradiction|].
-              apply Hg'. apply (R_in_gen st ws k t' H). exact Hin.
+          + exact (pending_step k t r st ws s1 H H1 Hnin Hts).
           + unfold W.gen_all in H2, G2. split; [exact H2|]. split.
             * rewrite G2, wgenerate_generated. cbn [rev]. rewrite <- app_assoc. reflexivity.
             * rewrite O2, map_app. cbn [map]. rewrite (gen_one_key k t st s1 e G1), <- app_assoc. reflexivity.
@@ -371,11 +390,9 @@ Section Refine.
         - inversion Rd; subst. auto.
         - destruct (gen_list k (to_generate T T_eqb (st k)) st out) as [[s1 o1]|] eqn:GL; [|discriminate].
           unfold W.turn at 2 4. rewrite (turn_filter ord0 st ws k K H).
-          destruct (R_gen_list k (to_generate T T_eqb (st k)) st ws out s1 o1 H) as (H1 & G1 & O1); [| |exact GL|].
-          + unfold Gen.to_generate. apply NoDup_filter', (R_classes_nodup st ws k H).
-          + intros t Ht. unfold Gen.to_generate in Ht. apply filter_In in Ht. destruct Ht as [Hc Hm].
-            split; [exact Hc|]. intros Hin. apply memT_In in Hin. rewrite Hin in Hm. discriminate.
-          + apply (IH s1 _ o1 st' out' K H1); [|exact Rd].
+          destruct (R_gen_list k (to_generate T T_eqb (st k)) st ws out s1 o1 H) as (H1 & G1 & O1);
+            [apply (to_generate_pending st ws k H) | apply (to_generate_pending st ws k H) | exact GL |].
+          apply (IH s1 _ o1 st' out' K H1); [|exact Rd].
             rewrite G1, G, O1, rev_app_distr. reflexivity.
       Qed.
 
